@@ -241,6 +241,20 @@ impl Hist {
         }
     }
 
+    /// `w = w.untracked()` / `w = w.tracked()`: by-value flag change re-binding the program's variable (leaves only)
+    pub fn rebind_flag(&mut self, node: usize, on: bool) {
+        self.step += 1;
+        if !matches!(self.st.p.nodes[node], Node::Leaf { .. }) {
+            return;
+        }
+        if let Some(h) = self.handles[node].take() {
+            let h = if on { h.tracked() } else { h.untracked() };
+            self.handles[node] = Some(h);
+            self.pending_pre.push((node, on));
+            self.log.push(format!("n{} = n{}.{}()", node, node, if on { "tracked" } else { "untracked" }));
+        }
+    }
+
     pub fn drop_handle(&mut self, node: usize) {
         self.step += 1;
         if matches!(self.st.p.nodes[node], Node::Op { .. }) && self.handles[node].is_some() {
